@@ -28,3 +28,93 @@ Proof.
   unfold hb_get. rewrite (map_nth_seq seq_of (merged (index_all n o) a) (0, 0)).
   apply map_ext. intros x. apply seq_of_proj.
 Qed.
+
+(* ---------- Round 2: end to end over an event stream ---------- *)
+From LV Require Import proofs.FcSpecFacts proofs.VecInv.
+
+Lemma wf_from_firstn n : forall o E k, wf_from n E o -> wf_from n E (firstn k o).
+Proof.
+  induction o as [|e o IH]; intros E k W; destruct k; cbn [firstn wf_from]; auto.
+  destruct W as [We Wo]. split; [exact We|apply IH; exact Wo].
+Qed.
+Lemma wf_stream_firstn n o k : wf_stream n o -> wf_stream n (firstn k o).
+Proof. apply wf_from_firstn. Qed.
+Lemma dag_prefix_submap n o k : wf_stream n o -> submap (dag_of (firstn k o)) (dag_of o).
+Proof.
+  intros W x ex Hx. apply (alookup_dag_of n _ x ex (wf_stream_firstn n o k W)) in Hx.
+  apply (alookup_dag_of n o x ex W). destruct Hx as [Hin Hid]. split; [eapply firstn_incl; eauto|exact Hid].
+Qed.
+Lemma dag_closed n o : wf_stream n o -> closed (dag_of o).
+Proof. intros W. destruct (index_all_inv n o W) as [I HE]. rewrite <- HE. apply (v_closed n _ I). Qed.
+
+(* a processed item: ProcessEvent(event id, self flag) was called when the first k events were indexed *)
+Definition pitem := (nat * N * bool)%type.
+Definition cr_of (o : list event) (id : N) : nat := match alookup id (dag_of o) with Some e => ecr e | None => 0%nat end.
+Definition h_of (n : nat) (o : list event) (ps : list pitem) : list qop :=
+  map (fun p : pitem => let '(k, id, self) := p in QP (merged (index_all n (firstn k o)) id) (cr_of o id) self) ps.
+Definition pitems_ok (o : list event) (ps : list pitem) : Prop :=
+  forall k id self, In (k, id, self) ps -> indexed (firstn k o) id.
+(* the observation of the property text, from the graph only *)
+Definition gobs (n : nat) (o : list event) (id : N) : list N := map obs_of_spec (merged_spec n (dag_of o) id).
+Fixpoint glast (n : nat) (o : list event) (psrev : list pitem) (c : nat) : list N :=
+  match psrev with [] => repeat 0 n
+  | (_, id, _) :: t => if Nat.eqb c (cr_of o id) then gobs n o id else glast n o t c end.
+Definition grow (n : nat) (o : list event) (ps : list pitem) (v : nat) : list N :=
+  map (fun c => nth v (glast n o (rev ps) c) 0) (List.seq 0 n).
+
+Lemma obs_clock_prefix n o k id : wf_stream n o -> indexed (firstn k o) id ->
+  obs_clock n (merged (index_all n (firstn k o)) id) = gobs n o id.
+Proof.
+  intros W Hi. rewrite (obs_clock_graph n (firstn k o) id (wf_stream_firstn n o k W) Hi). unfold gobs. f_equal.
+  symmetry. apply merged_spec_submap; [apply (dag_prefix_submap n o k W)|apply (dag_closed n _ (wf_stream_firstn n o k W))|exact Hi].
+Qed.
+
+Lemma last_obs_graph n o : wf_stream n o -> forall L c, pitems_ok o L ->
+  last_obs n (h_of n o L) c = glast n o L c.
+Proof.
+  intros W. induction L as [|[[k id] self] L IH]; intros c Hok; cbn [h_of map last_obs glast]; [reflexivity|].
+  fold (h_of n o L). destruct (Nat.eqb c (cr_of o id)).
+  - apply obs_clock_prefix; [exact W|]. apply (Hok k id self). left. reflexivity.
+  - apply IH. intros k' id' s' Hin. apply (Hok k' id' s'). right. exact Hin.
+Qed.
+
+Theorem medians_from_graph diff ws n o ps : wf_stream n o -> length ws = n -> 0 < total_weight ws -> pitems_ok o ps ->
+  exists st meds st', qrun diff ws (quorum_of ws) n (h_of n o ps) = Some st /\
+    qi_medians ws (quorum_of ws) st = Some (meds, st') /\ length meds = n /\
+    forall v, (v < n)%nat ->
+      nth v meds 0 = median_spec ws (quorum_of ws) (grow n o ps v) /\
+      is_quorum_median ws (quorum_of ws) (grow n o ps v) (nth v meds 0).
+Proof.
+  intros W Hl Ht Hok.
+  assert (Hc : creators_ok n (h_of n o ps)).
+  { intros clock c self Hin. unfold h_of in Hin. apply in_map_iff in Hin. destruct Hin as ([[k id] s0] & Heq & Hin).
+    injection Heq as _ <- _. destruct (Hok k id s0 Hin) as [ea Ha].
+    apply (dag_prefix_submap n o k W) in Ha. unfold cr_of. rewrite Ha.
+    destruct (index_all_inv n o W) as [I HE]. rewrite <- HE in Ha. apply (v_ev n _ I id ea Ha). }
+  destruct (medians_after_history diff ws n (h_of n o ps) Hl Ht Hc) as (st & meds & st' & E1 & E2 & E3 & E4).
+  exists st, meds, st'. split; [exact E1|]. split; [exact E2|]. split; [exact E3|].
+  intros v Hv. destruct (E4 v Hv) as [A B].
+  assert (Hrow : obs_row n (rev (h_of n o ps)) v = grow n o ps v).
+  { unfold obs_row, grow. apply map_ext. intros c. f_equal.
+    unfold h_of. rewrite <- map_rev. fold (h_of n o (rev ps)). apply (last_obs_graph n o W).
+    intros k id s0 Hin. apply (Hok k id s0). apply in_rev. exact Hin. }
+  rewrite Hrow in A, B. split; [exact B|exact A].
+Qed.
+
+(* "a detected fork counts as the maximal observation": true as long as sequence numbers stay below
+   2^31-2 (FORKSEQ), which is an explicit hypothesis here *)
+Theorem fork_obs_is_maximal n o a v : wf_stream n o -> (forall e, In e o -> eseq e < FORKSEQ) -> (v < n)%nat ->
+  nth v (gobs n o a) 0 <= FORKSEQ /\
+  (nth v (gobs n o a) 0 = FORKSEQ <-> SeesFork (dag_of o) a v).
+Proof.
+  intros W Hb Hv. unfold gobs.
+  assert (Hn : nth v (map obs_of_spec (merged_spec n (dag_of o) a)) 0 = obs_of_spec (nth v (merged_spec n (dag_of o) a) (false, 0)))
+    by (change 0 with (obs_of_spec (false, 0)) at 1; apply map_nth).
+  rewrite Hn. clear Hn.
+  destruct (merged_spec_meaning n (dag_of o) a v Hv) as [(HS & ->)|(Hns & M & -> & HM)]; cbn [obs_of_spec fst snd].
+  - split; [unfold FORKSEQ; lia|]. split; [intros _; exact HS|reflexivity].
+  - assert (HMb : M < FORKSEQ).
+    { destruct HM as [_ [->|(x & ex & _ & Lx & _ & <-)]]; [unfold FORKSEQ; lia|].
+      apply Hb. apply (alookup_dag_of n o x ex W). exact Lx. }
+    split; [lia|]. split; [intros H; lia|intros H; contradiction].
+Qed.
